@@ -360,7 +360,7 @@ theorem check_sound_partial (cfg : CheckCfg) (c : Spec.SCfg) (henv : EnvConforms
     | .error e => e = .divzero := by
   have hs := accepted_type_is_synth cfg n n' τ h
   obtain ⟨hn', _, _, _⟩ := (check_ok_iff cfg n n' τ).1 h
-  obtain ⟨_, _, hev⟩ := frag_sound (E := fun e => e = .divzero) (P := fun _ => True) rfl cfg [] c henv n hfrag hstatic τ hs {}
+  obtain ⟨_, _, hev⟩ := frag_sound (E := fun e => e = .divzero) (P := fun _ => True) rfl cfg [] c henv n hfrag hstatic τ hs (by have := scalarTyped_self cfg [] n hstatic; rw [hs] at this; exact this) {} rfl
   rw [hn'] at hev
   exact hev ctx trivial s
 
